@@ -169,3 +169,9 @@ info('C16',
      ['Lanczos numerics and convergence: bounded only', 'index coverage of _calc_result_full for every N_cache as a deductive obligation: '
       'not built'],
      [])
+info('C17',
+     'B (bounded, not proof): real HDF5 round trip in every LegCharge format (blocks, compact, flat) and pickle round trip of instances '
+     'of every Hdf5Exportable class found by reflection (uncovered classes are listed in coverage.bounded.bounds), of nested containers, '
+     'shared references and self-referential containers; recursive observational equality and test_sanity() of the loaded object.',
+     ['relational save->load symbolic execution over an abstract store (DESIGN 4/C17): not built; bounded only', 'h5py and pickle themselves'],
+     [])
